@@ -7,8 +7,10 @@ package main
 import (
 	"flag"
 	"fmt"
+	"sort"
 	"strings"
 
+	"github.com/pokt-network/pocket-core/store/types"
 	dbm "github.com/tendermint/tm-db"
 
 	"verifharness/internal/gen"
@@ -101,6 +103,12 @@ func main() {
 				}
 			}
 		}
+		// how the persistent writes of each block travel (fixed per history: it shapes the IAVL trees):
+		// 0 direct, 1 through CacheMultiStore()+Write(), 2 through a nested cache wrap
+		proute := make([]int, nb)
+		for i := range proute {
+			proute[i] = r.Intn(3)
+		}
 		pb := r.Intn(nb)
 		pstore := r.Pick(ps)
 		cfgs := []runCfg{
@@ -135,21 +143,107 @@ func main() {
 					if c.perturb == bi {
 						ws = append(ws, write{store: pstore, k: []byte{0xee, byte(bi), 0x01}, v: []byte{0x77}})
 					}
+					// transient writes travel by a route chosen per run and block
+					troute := r.Intn(3)
+					var top, inner types.CacheMultiStore
+					need := func(rt int) {
+						if rt >= 1 && top == nil {
+							top = ms.Store.CacheMultiStore()
+						}
+						if rt == 2 && inner == nil {
+							inner = top.CacheMultiStore()
+						}
+					}
+					need(proute[bi])
+					need(troute)
+					kvFor := func(store string, rt int) types.KVStore {
+						switch rt {
+						case 1:
+							return top.GetKVStore(ms.Keys[store])
+						case 2:
+							return inner.GetKVStore(ms.Keys[store])
+						}
+						return ms.KV(store)
+					}
+					// a cache wrap that is never written back must leave no trace at all
+					if r.Chance(1, 3) {
+						junk := ms.Store.CacheMultiStore()
+						for _, n := range append(append([]string{}, c.persistent...), c.transient...) {
+							_ = junk.GetKVStore(ms.Keys[n]).Set(msdrive.Key(r, space), []byte{0xdd})
+						}
+					}
+					type lastOp struct {
+						del bool
+						v   []byte
+					}
+					pending := map[string]map[string]lastOp{} // writes buffered in a cache wrap, per store
+					touched := map[string]map[string]bool{}   // transient keys written in this block
 					for _, w := range ws {
 						if w.trans && (!c.keepTrans || len(c.transient) == 0) {
 							continue
 						}
-						kv := ms.KV(w.store)
+						rt := proute[bi]
+						if w.trans {
+							rt = troute
+							if touched[w.store] == nil {
+								touched[w.store] = map[string]bool{}
+							}
+							touched[w.store][string(w.k)] = true
+						}
+						kv := kvFor(w.store, rt)
 						if w.del {
 							_ = kv.Delete(w.k)
-							t.Line("write", true, "w %d %s d %s => ok", c.id, w.store, gen.Hex(w.k))
 						} else {
 							_ = kv.Set(w.k, w.v)
-							t.Line("write", true, "w %d %s s %s %s => ok", c.id, w.store, gen.Hex(w.k), gen.Hex(w.v))
 						}
-						if w.trans && r.Chance(1, 3) {
-							g, _ := kv.Get(w.k)
-							t.Line("tget", true, "tget %d %s %s => %s", c.id, w.store, gen.Hex(w.k), gen.Hex(g))
+						if rt == 0 {
+							if w.del {
+								t.Line("write", true, "w %d %s d %s => ok", c.id, w.store, gen.Hex(w.k))
+							} else {
+								t.Line("write", true, "w %d %s s %s %s => ok", c.id, w.store, gen.Hex(w.k), gen.Hex(w.v))
+							}
+							if w.trans && r.Chance(1, 3) {
+								g, _ := kv.Get(w.k)
+								t.Line("tget", true, "tget %d %s %s => %s", c.id, w.store, gen.Hex(w.k), gen.Hex(g))
+							}
+						} else {
+							if pending[w.store] == nil {
+								pending[w.store] = map[string]lastOp{}
+							}
+							pending[w.store][string(w.k)] = lastOp{w.del, w.v}
+						}
+					}
+					if inner != nil {
+						inner.Write()
+					}
+					if top != nil {
+						top.Write()
+					}
+					// the writes as they reach the substores when a cache wrap is flushed: last operation per key, in key order
+					var pstores []string
+					for st := range pending {
+						pstores = append(pstores, st)
+					}
+					sort.Strings(pstores)
+					for _, st := range pstores {
+						var keys []string
+						for k := range pending[st] {
+							keys = append(keys, k)
+						}
+						sort.Strings(keys)
+						for _, k := range keys {
+							op := pending[st][k]
+							if op.del {
+								t.Line("write", true, "w %d %s d %s => ok", c.id, st, gen.Hex([]byte(k)))
+							} else {
+								t.Line("write", true, "w %d %s s %s %s => ok", c.id, st, gen.Hex([]byte(k)), gen.Hex(op.v))
+							}
+						}
+						if touched[st] != nil { // transient store written through the cache: visible in the block after the flush
+							for _, k := range keys {
+								g, _ := ms.KV(st).Get([]byte(k))
+								t.Line("tget", true, "tget %d %s %s => %s", c.id, st, gen.Hex([]byte(k)), gen.Hex(g))
+							}
 						}
 					}
 					id := ms.Store.Commit()
@@ -168,6 +262,24 @@ func main() {
 						tz = strings.Join(tsz, ",")
 					}
 					t.Line("commit", true, "commit %d => %s %s %s %s", c.id, msdrive.CID(id), msdrive.CID(ms.Store.LastCommitID()), infos, tz)
+					// read back after the commit: every transient key written in this block, directly and through a cache wrap
+					var tst []string
+					for st := range touched {
+						tst = append(tst, st)
+					}
+					sort.Strings(tst)
+					for _, st := range tst {
+						var keys []string
+						for k := range touched[st] {
+							keys = append(keys, k)
+						}
+						sort.Strings(keys)
+						for _, k := range keys {
+							g, _ := ms.KV(st).Get([]byte(k))
+							g2, _ := ms.Store.CacheMultiStore().GetKVStore(ms.Keys[st]).Get([]byte(k))
+							t.Line("tgetc", true, "tgetc %d %s %s => %s %s", c.id, st, gen.Hex([]byte(k)), gen.Hex(g), gen.Hex(g2))
+						}
+					}
 				}
 			}()
 		}
